@@ -38,6 +38,9 @@ impl Argument for RawArg {
     }
 }
 
+/// panics raised inside the command builder (collected, reported as C07/panic)
+static PANICS: std::sync::Mutex<Vec<String>> = std::sync::Mutex::new(Vec::new());
+
 #[derive(Clone, Debug)]
 enum ArgVal {
     Str(String),
@@ -45,6 +48,8 @@ enum ArgVal {
     Cow(String),
     CowOwned(String),
     RefString(String),
+    /// a hand-built `mpd_client::tag::Tag::Other` (rendered verbatim by the typed layer)
+    Tag(String),
     U8(u8),
     U16(u16),
     U32(u32),
@@ -56,13 +61,35 @@ enum ArgVal {
 }
 
 impl ArgVal {
+    /// (a panic inside the builder counts as a rejection here and is reported by `apply`'s callers
+    /// through `PANICS`)
     fn apply(&self, cmd: &mut Command) -> bool {
+        let before = cmd.clone();
+        let mut work = cmd.clone();
+        match catch(|| {
+            let ok = self.apply_inner(&mut work);
+            (ok, work)
+        }) {
+            Ok((ok, work)) => {
+                *cmd = work;
+                ok
+            }
+            Err(msg) => {
+                *cmd = before;
+                PANICS.lock().unwrap().push(format!("{}: {msg}", self.show()));
+                false
+            }
+        }
+    }
+
+    fn apply_inner(&self, cmd: &mut Command) -> bool {
         match self {
             ArgVal::Str(s) => cmd.add_argument(s.as_str()).is_ok(),
             ArgVal::String(s) => cmd.add_argument(s.clone()).is_ok(),
             ArgVal::Cow(s) => cmd.add_argument(Cow::Borrowed(s.as_str())).is_ok(),
             ArgVal::CowOwned(s) => cmd.add_argument(Cow::<str>::Owned(s.clone())).is_ok(),
             ArgVal::RefString(s) => cmd.add_argument(s).is_ok(),
+            ArgVal::Tag(s) => cmd.add_argument(mpd_client::tag::Tag::Other(s.clone().into())).is_ok(),
             ArgVal::U8(v) => cmd.add_argument(*v).is_ok(),
             ArgVal::U16(v) => cmd.add_argument(*v).is_ok(),
             ArgVal::U32(v) => cmd.add_argument(*v).is_ok(),
@@ -76,7 +103,7 @@ impl ArgVal {
     /// bytes this value renders to contain a line feed (⇒ must be rejected)
     fn has_lf(&self) -> bool {
         match self {
-            ArgVal::Str(s) | ArgVal::String(s) | ArgVal::Cow(s) | ArgVal::CowOwned(s) | ArgVal::RefString(s) => s.contains('\n'),
+            ArgVal::Str(s) | ArgVal::String(s) | ArgVal::Cow(s) | ArgVal::CowOwned(s) | ArgVal::RefString(s) | ArgVal::Tag(s) => s.contains('\n'),
             ArgVal::Raw(b) => b.contains(&b'\n'),
             _ => false,
         }
@@ -88,6 +115,7 @@ impl ArgVal {
             ArgVal::Cow(s) => json!({"cow": hex(s.as_bytes())}),
             ArgVal::CowOwned(s) => json!({"cow_owned": hex(s.as_bytes())}),
             ArgVal::RefString(s) => json!({"ref_string": hex(s.as_bytes())}),
+            ArgVal::Tag(s) => json!({"tag_other": hex(s.as_bytes())}),
             ArgVal::U8(v) => json!({"u8": v}),
             ArgVal::U16(v) => json!({"u16": v}),
             ArgVal::U32(v) => json!({"u32": v}),
@@ -108,6 +136,7 @@ impl ArgVal {
             "cow" => ArgVal::Cow(s()),
             "cow_owned" => ArgVal::CowOwned(s()),
             "ref_string" => ArgVal::RefString(s()),
+            "tag_other" => ArgVal::Tag(s()),
             "u8" => ArgVal::U8(x.as_u64()? as u8),
             "u16" => ArgVal::U16(x.as_u64()? as u16),
             "u32" => ArgVal::U32(x.as_u64()? as u32),
@@ -121,7 +150,7 @@ impl ArgVal {
     }
     fn show(&self) -> String {
         match self {
-            ArgVal::Str(s) | ArgVal::String(s) | ArgVal::Cow(s) | ArgVal::CowOwned(s) | ArgVal::RefString(s) => format!("{:?}", show_bytes(s.as_bytes())),
+            ArgVal::Str(s) | ArgVal::String(s) | ArgVal::Cow(s) | ArgVal::CowOwned(s) | ArgVal::RefString(s) | ArgVal::Tag(s) => format!("{:?}", show_bytes(s.as_bytes())),
             ArgVal::Raw(b) => format!("Raw({:?})", show_bytes(b)),
             other => format!("{other:?}"),
         }
@@ -302,6 +331,12 @@ fn seq_menu() -> Vec<ArgVal> {
         ArgVal::Cow("\n".into()),
         ArgVal::Raw(b"q\n".to_vec()),
         ArgVal::String("tail\n".into()),
+        // renderings that are empty or end in a blank, and one whose FIRST byte is the line feed:
+        // where an argument begins must not depend on what the previous one left behind
+        ArgVal::Raw(b"".to_vec()),
+        ArgVal::Raw(b"a ".to_vec()),
+        ArgVal::Raw(b"\nkill".to_vec()),
+        ArgVal::Tag("Artist\nkill".into()),
     ]
 }
 
@@ -394,6 +429,9 @@ pub fn run(tier: Tier) -> i32 {
         vals.push(ArgVal::Cow(s.clone()));
         vals.push(ArgVal::CowOwned(s.clone()));
         vals.push(ArgVal::RefString(s.clone()));
+        if s.chars().count() <= 3 {
+            vals.push(ArgVal::Tag(s.clone()));
+        }
     }
     for v in [0u64, 1, 9, 10, 255, 256, 65535, 65536, u32::MAX as u64, u64::MAX - 1, u64::MAX] {
         vals.push(ArgVal::U8(v as u8));
@@ -424,13 +462,13 @@ pub fn run(tier: Tier) -> i32 {
         .reduce(Acc::default, Acc::merge);
 
     // sequences of add_argument calls
-    let depth = tier.pick(5, 7);
+    let depth = tier.pick(4, 6);
     let mut seqs: Vec<Vec<usize>> = vec![vec![]];
     let mut layer: Vec<Vec<usize>> = vec![vec![]];
     for _ in 0..depth {
         let mut next = Vec::new();
         for s in &layer {
-            for i in 0..8 {
+            for i in 0..seq_menu().len() {
                 let mut t = s.clone();
                 t.push(i);
                 next.push(t);
@@ -450,7 +488,10 @@ pub fn run(tier: Tier) -> i32 {
         })
         .reduce(Acc::default, Acc::merge);
 
-    let acc = acc_names.merge(acc_args).merge(acc_seq);
+    let mut acc = acc_names.merge(acc_args).merge(acc_seq);
+    for p in PANICS.lock().unwrap().drain(..).take(50) {
+        acc.viol.push(Violation::new("C07/panic", format!("the command builder panicked on an argument: {p}"), json!({"kind": "panic", "what": p})));
+    }
     if acc.accepted_names == 0 || acc.rejected_names == 0 || acc.accepted_args == 0 || acc.rejected_args == 0 {
         machinery_error("C07: vacuous enumeration (no accepted or no rejected names/arguments)");
     }
@@ -458,7 +499,7 @@ pub fn run(tier: Tier) -> i32 {
     cov.evaluations = acc.evaluations;
     cov.distinct_nontrivial = acc.nontrivial;
     cov.rule = format!(
-        "names: every string of length <= {} over 22 class representatives (incl. 8 non-ASCII numeric / letter-like / space characters) plus every string within edit distance 1 of / prefix / extension of the three list keywords ({} names); arguments: every string of length <= {} over 12 classes through &str/String/Cow borrowed and owned/&String, integer/bool/Duration values, user-defined renderers for every byte string of length <= {} over {{a, LF, CR, 0xFF, space, quote}} ({} values x 2 base commands); sequences: every sequence of <= {} add_argument calls over a menu of 4 accepted and 4 rejected values ({} sequences); non-trivial = invalid names, values containing LF or rendered by a user-defined renderer, sequences containing a rejected call",
+        "names: every string of length <= {} over 22 class representatives (incl. 8 non-ASCII numeric / letter-like / space characters) plus every string within edit distance 1 of / prefix / extension of the three list keywords ({} names); arguments: every string of length <= {} over 12 classes through &str/String/Cow borrowed and owned/&String, integer/bool/Duration values, user-defined renderers for every byte string of length <= {} over {{a, LF, CR, 0xFF, space, quote}} ({} values x 2 base commands); sequences: every sequence of <= {} add_argument calls over a menu of 12 values (accepted, rejected, empty / blank-terminated renderings, a line feed as first byte, a hand-built tag) ({} sequences); non-trivial = invalid names, values containing LF or rendered by a user-defined renderer, sequences containing a rejected call",
         tier.pick(3, 5),
         names.len(),
         tier.pick(4, 6),
@@ -499,7 +540,7 @@ pub fn replay(case: &Value) -> i32 {
             check_arg(base.min(1), &val, &mut acc, true);
         }
         Some("sequence") => {
-            let seq: Vec<usize> = case["seq"].as_array().map(|a| a.iter().filter_map(|x| x.as_u64().map(|v| (v as usize).min(7))).collect()).unwrap_or_default();
+            let seq: Vec<usize> = case["seq"].as_array().map(|a| a.iter().filter_map(|x| x.as_u64().map(|v| (v as usize).min(seq_menu().len() - 1))).collect()).unwrap_or_default();
             println!("replay C07: add_argument sequence {seq:?}");
             check_sequence(&seq, &mut acc, true);
         }
